@@ -267,6 +267,10 @@ class ParseContext:
 
     return attr_names, attr_chain
 
+  @property
+  def dynamic_registration(self):
+    return self._dynamic_registration
+
   def provides(self, selector):
     """Whether `selector` resolves through this context's own imports."""
     if not self._dynamic_registration:
@@ -899,10 +903,15 @@ def _validate_skip_unknown(skip_unknown):
 def _should_skip(selector, skip_unknown):
   """Checks whether `selector` should be skipped (if unknown)."""
   _validate_skip_unknown(skip_unknown)
-  if (_REGISTRY.matching_selectors(selector) or
-      _parse_context().provides(selector)):
-    # Never skip known configurables, nor (under dynamic registration) names
-    # that the file's own imports provide: those are registered on first use.
+  context = _parse_context()
+  if context.dynamic_registration:
+    # Names are resolved through the file's own imports only (and registered on
+    # first use): what other files or decorators registered does not make a name
+    # known here, it would still be a NameError when the statement is applied.
+    known = context.provides(selector)
+  else:
+    known = bool(_REGISTRY.matching_selectors(selector))
+  if known:  # Never skip known configurables.
     return False
   if isinstance(skip_unknown, (list, tuple, set)):
     return selector in skip_unknown
